@@ -102,7 +102,8 @@ def drive(ctx, dump, rng, hdr, sf, table, strings, root, tag, k):
     ctx.current = {"data": d[:800], "regions": regs}
     ctx.case(tag + d.hex(), len(regs) > 1, sample={"regions": regs, "len": len(d)} if k < 2 else None)
     try:
-        base = dump.parse_dump_data(memoryview(d), hdr, sf)
+        v = iogen.view_of(rng, d)
+        base = dump.parse_dump_data(v if isinstance(v, memoryview) else memoryview(v), hdr, sf)
     except Exception as e:
         ctx.violation("C17/decoder-raised/" + type(e).__name__, "parse_dump_data raised %r" % (e,), data=d[:800])
         return d
